@@ -7,7 +7,7 @@ ASSUMPTIONS = ["_ical_proc depends only on (parser state, completed line): it is
                "inputs of N bytes, two chunks; longer inputs and three or more chunks are outside the claim"]
 def ob(n, split, **kw):
     o = dict(name='n%d_split%d' % (n, split), src='h_pull.c', defs=['N=%d' % n, 'SPLIT=%d' % split], units=[],
-             incl=['src/evical.c'], replay_units='all', unwind=n + 3, unwindset={'memchr.*': n + 2, 'esccpy.*': n + 2},
+             incl=['src/evical.c'], replay_units='all', unwind=n + 3, unwindset={'memchr.*': n + 2, 'esccpy.*': n + 2, 'harness.0': 1026},
              solver='cadical', timeout=900, mem_gb=12, checks=['--bounds-check', '--pointer-check'],
              replace_calls={'_ical_proc': 'rec_proc'}, excludes=['C10-1', 'C10-2', 'C10-3', 'C10-4'],
              enc=['_ical_push', '_ical_pull', 'esccpy'], sym='all %d input bytes' % n, bounds='%d bytes, split after byte %d vs one chunk' % (n, split),
